@@ -1,4 +1,5 @@
 import Just.Lemmas.Render
+import Just.Model.Loader
 /-
 C12  Diagnostics point at the offending token.
 
@@ -253,5 +254,41 @@ example :
     context (fun c => if c = '中' then 2 else 1) "a\r\n\t中x := y\r\nb".toList ⟨.identifier, 12, 1, 1, 9⟩
       = some { lineNumber := 2, columnNumber := 10, echoed := "    中x := y".toList, caretOffset := 11, caretCount := 1 } := by
   decide
+
+/-! ### the file named is the one that contains the token -/
+section FileNames
+open Just.Loader
+
+/-- **the name shown identifies the file**: two source files of one run (absolute, cleaned paths) that are shown under
+the same name are the same file — whether they lie below the root justfile's directory (shown relative to it) or
+outside (shown by their whole path).  A name that dropped a directory (`sub/mod.just` shown as `mod.just`, the seeded
+change C12-m10) would name two files alike. -/
+theorem shown_name_identifies_file (rootDir p q : List String) (h : display rootDir p = display rootDir q) : p = q := by
+  unfold display at h
+  cases hp : stripPrefix rootDir p with
+  | some rp =>
+    cases hq : stripPrefix rootDir q with
+    | some rq =>
+      rw [hp, hq] at h
+      have : rp = rq := by injection h
+      rw [stripPrefix_some _ _ _ hp, stripPrefix_some _ _ _ hq, this]
+    | none => rw [hp, hq] at h; cases h
+  | none =>
+    cases hq : stripPrefix rootDir q with
+    | some rq => rw [hp, hq] at h; cases h
+    | none => rw [hp, hq] at h; injection h
+
+/-- a file below the root justfile's directory is shown by its path from there, every directory included -/
+theorem shown_relative (rootDir rest : List String) : display rootDir (rootDir ++ rest) = .relative rest := by
+  have : stripPrefix rootDir (rootDir ++ rest) = some rest := by
+    induction rootDir with
+    | nil => rfl
+    | cons d ds ih => simp [stripPrefix, ih]
+  simp [display, this]
+
+example : (display ["w", "proj"] ["w", "proj", "sub", "mod.just"]).text = "sub/mod.just" ∧
+    (display ["w", "proj"] ["w", "other", "x.just"]).text = "/w/other/x.just" := by decide
+
+end FileNames
 
 end Just.C12
